@@ -1,17 +1,21 @@
 #!/bin/sh
-# tools/seedall.sh [tier] : run every seeded change through tools/seedcheck.py (scratch worktrees), one line each
+# tools/seedall.sh [tier] [pattern] : run every seeded change (seeded/<pattern>, default all) through tools/seedcheck.py
+# (scratch worktrees), one line each.  Several shards may run side by side: sh tools/seedall.sh quick 'C0[1-5]-*' & ...
 TIER=${1:-quick}
+PAT=${2:-*}
+TMP=/tmp/seedall-one-$$.json
 cd /verif
-for d in seeded/*/; do
+for d in seeded/$PAT/; do
   n=$(basename $d)
-  /venv/bin/python tools/seedcheck.py $d --tier $TIER > /tmp/seedall-one.json 2>&1
-  /venv/bin/python - "$n" <<'E'
+  /venv/bin/python tools/seedcheck.py $d --tier $TIER > $TMP 2>&1
+  /venv/bin/python - "$n" "$TMP" <<'PY'
 import sys, json
 try:
-    s = open('/tmp/seedall-one.json').read()
+    s = open(sys.argv[2]).read()
     o = json.loads(s[s.index('{'):], strict=False)
     print(sys.argv[1], 'detected=%s nofail=%s demo_with=%s demo_without=%s' % (o.get('detected'), o.get('no_failing_input'), o.get('demo_with_change_rc'), o.get('demo_without_change_rc')))
 except Exception as e:
     print(sys.argv[1], 'ERR', e)
-E
+PY
 done
+rm -f $TMP
